@@ -212,6 +212,13 @@ func (m *gatherModel) Apply(ev string) {
 		if open := m.openResources(m.fn.gen); len(open) > 0 {
 			m.leak("after Close returned", open)
 		}
+		// ... and so is the gathering cycle that was started last, also when a Restart has superseded it meanwhile: Close
+		// waits for it (only a cycle that a later GatherCandidates replaced is left to its own I/O timeouts, S26 under C08)
+		if lc := m.curCycle(); lc != nil && lc.gen != m.fn.gen {
+			if open := m.openResources(lc.gen); len(open) > 0 {
+				m.leak("after Close returned (last gathering cycle, superseded by Restart, no later cycle)", open)
+			}
+		}
 		// ... superseded gatherings once they have wound down (their own I/O timeouts)
 		if !m.strict {
 			time.Sleep(30 * time.Second)
